@@ -134,7 +134,7 @@ def run_mc(ctx, cov):
     for m in ((2, 3, 4) if q else (2, 3, 4, 5)):
         ks = "Keys5" if q else ("Keys6" if m == 2 else "Keys7")
         jobs.append(("asis-norem m=%d %s" % (m, ks),
-                     mc_cfg(m, "NoFix", ks, NOREM, "INVARIANTS Refines Structure", maxabs=1 if q or m == 2 else 2)))
+                     mc_cfg(m, "NoFix", ks, NOREM, "INVARIANTS Refines Structure", maxabs=1)))
         jobs.append(("repaired-allops m=%d %s" % (m, "Keys5" if q else "Keys6"),
                      mc_cfg(m, "AllFixes", "Keys5" if q else "Keys6", ALLOPS, "INVARIANTS Refines Structure",
                             total="TRUE")))
